@@ -1,4 +1,4 @@
-CONSTANTS MaxCalls = 8  MaxDepth = 4
+CONSTANTS MaxCalls = 10  MaxDepth = 4
 SPECIFICATION Spec
 INVARIANTS WellFormedJSON TextIsRewrittenJSON TextDepthSane Emit
 CHECK_DEADLOCK FALSE
